@@ -418,7 +418,12 @@ pub fn denote(filter: &str) -> (Vec<String>, bool) {
     }
     // second universe, for policies with thousands of ranges: the /24s under 172.16.0.0/12 and the /48s under
     // 2001:db9::/36 (4096 atoms each); a filter there denotes the atoms of exactly that length it covers
-    let (broot, brl, blen): (u128, u8, u8) = if v6 { (0x2001_0db9_0000_0000_0000_0000_0000_0000, 36, 48) } else { (0xac10_0000, 12, 24) };
+    let (mut broot, mut brl, blen): (u128, u8, u8) = if v6 { (0x2001_0db9_0000_0000_0000_0000_0000_0000, 36, 48) } else { (0xac10_0000, 12, 24) };
+    // ... and, for runs with many policies of some hundred ranges each, the /24s under 100.64.0.0/10
+    if !v6 && l >= 10 && (a & mask(bits, 10)) == 0x6440_0000 {
+        broot = 0x6440_0000;
+        brl = 10;
+    }
     if l >= brl && (a & mask(bits, brl)) == broot {
         let mut atoms = Vec::new();
         if l <= blen && lo <= blen && blen <= hi {
@@ -773,15 +778,32 @@ pub fn apply_get_filter(req: &Elem, config_xml: &str) -> Result<String, String> 
 /// One `load-configuration` payload projected to the shape Junos.tla's Load understands.
 /// `foreign`: paths of anything that is not a policy-statement (or not understood inside one).
 pub fn project_update(cfg: &Elem) -> Value {
+    project_update_in(cfg, &[])
+}
+
+/// `installed`: names of the policy-statements the instance holds - a delete of a whole container
+/// (`<policy-options delete="delete"/>`, `<configuration delete="delete"/>`) is a delete of every one of them
+pub fn project_update_in(cfg: &Elem, installed: &[String]) -> Value {
     let mut foreign: Vec<String> = Vec::new();
     let mut policies = Vec::new();
     if cfg.name != "configuration" {
         foreign.push(format!("/{}", cfg.name));
     }
+    let wipe = |policies: &mut Vec<Value>| {
+        for n in installed {
+            policies.push(json!({"policy": n, "delete": true, "terms": [], "reject": false, "comment": "", "expr": ""}));
+        }
+    };
+    if cfg.is_delete() {
+        wipe(&mut policies);
+    }
     for c in &cfg.children {
         if c.name != "policy-options" {
             foreign.push(format!("/configuration/{}", c.name));
             continue;
+        }
+        if c.is_delete() {
+            wipe(&mut policies);
         }
         for ps in &c.children {
             if ps.name != "policy-statement" {
@@ -1389,7 +1411,8 @@ async fn serve_session<S: tokio::io::AsyncRead + tokio::io::AsyncWrite + Unpin>(
                 ev["format"] = json!(lc.attr("format").unwrap_or(""));
                 ev["nload"] = json!(nload);
                 ev["db_open"] = json!(staged.is_some());
-                let upd = lc.child("configuration").map(project_update).unwrap_or_else(|| {
+                let installed: Vec<String> = staged.as_ref().map(|s| s.iter().map(|(n, _)| n.clone()).collect()).unwrap_or_default();
+                let upd = lc.child("configuration").map(|c| project_update_in(c, &installed)).unwrap_or_else(|| {
                     json!({"policies": [], "foreign": lc.children.iter().map(|c| format!("/{}", c.name)).collect::<Vec<_>>()})
                 });
                 ev["update"] = upd.clone();
